@@ -1,6 +1,6 @@
 // hinternal: correspondence harness on /repo's internal packages (built with -tags verif).
 //
-//   hinternal <kernel> <seed> <count> <ops-file> <expected-file> [stats-file]
+//	hinternal <kernel> <seed> <count> <ops-file> <expected-file> [stats-file]
 //
 // For the given kernel it generates <count> operations from one PRNG, runs the REAL esbuild
 // routine on each, and writes the operation lines (input of lean/modeldriver) and the canonical
@@ -33,7 +33,7 @@ func (e *emitter) emit(op string, expected string) {
 	e.n++
 }
 func (e *emitter) stat(key string) { e.stats[key]++ }
-func (e *emitter) full() bool       { return e.n >= e.limit }
+func (e *emitter) full() bool      { return e.n >= e.limit }
 
 type kernelFn func(r *gen.Rand, e *emitter, tier string)
 
